@@ -151,6 +151,10 @@ class DLISFile:
 
         for idx_lf, logical_file in enumerate(self.logical_files):
 
+            for channel in logical_file.channels:
+                # (also those which are not - or no longer - in a frame, and will not be set up from the data below)
+                channel.forget_values_derived_from_data()
+
             lf_frame_items: Generator[eflr_types.FrameItem, None, None] = \
                 logical_file._eflr_sets.get_all_items_for_set_type(eflr_types.FrameSet)
 
